@@ -69,7 +69,8 @@ theorem delall_keeps_allocator (s : Store) :
     the allocators move, what `del_graph` / `del_all_graphs` do to them, when the disjoint store regards an id as
     present, which lookups filter on `GraphID`) are the ones `Model/Store.lean` / `Model/DStore.lean` mirror -/
 theorem flow_is_modelled :
-    Gen.StoreFlow.flow = Store.modelFlow ∧ Gen.StoreFlow.gidFiltered = Store.modelFiltered := by decide
+    Gen.StoreFlow.flow = Store.modelFlow ∧ Gen.StoreFlow.gidFiltered = Store.modelFiltered ∧
+    Gen.StoreFlow.dgidFiltered = DStore.modelFiltered := by decide
 
 /-! ## shared store: frame -/
 
@@ -338,6 +339,69 @@ example : "n" ∈ nodeArgs (.deleteNode "g1" "n") ∧
   intro m hm
   have : nodesOf ⟨[⟨1, [("GraphID", .str "g2"), ("NodeID", .str "n")]⟩], [], 2⟩ "g1" = [] := by decide
   rw [this] at hm; cases hm
+
+/-! ## shared store: refused calls; a graph handle is its graph id
+
+In the model a graph *handle* is the graph id that travels inside the `Op` - `Store.step` has no other input than the operation
+and the store, so nothing a handle object could remember between calls (a cache, a memo, anything left behind by a call that
+failed) exists here.  The two theorems below say what that means for refused calls: the store after a refused call is the store
+before it (an import that fails has, as the code does, already dropped the old graph of its own id), so the rest of a history -
+every reply and every graph - is what it would have been without the refused call.  The implementation side of the
+correspondence and of the oracle is driven through handle *objects* kept for the whole history so that a stateful handle shows
+as a difference to this model (class of seeded C04-r4-2: a lookup memo written by a merge that was then refused). -/
+
+/-- **a refused call changes nothing** - not the graph it is addressed to, not the other graph of a refused `merge_nodes`
+    (whatever the reason: other graph missing, node missing on either side, the graph itself, a policy naming a property the
+    other node lacks), not the allocator.  The one exception is the code's own: an import (`add_graph`, and `clone_graph` through
+    it) that is refused for a node without `NodeID` has already deleted the graph stored under its own id. -/
+theorem failed_call_changes_nothing (op : Op) (s : Store) (e : Err) (h : (Store.step op s).1 = .error e) :
+    (Store.step op s).2 = s ∨
+    (((∃ g ig, op = .addGraph g ig) ∨ (∃ g g2, op = .clone g g2)) ∧
+      (Store.step op s).2 = Store.delIfPresent op.target s) := by
+  cases op
+  all_goals first
+    | (left; simp only [Store.step, addNode, deleteNode, addLink, assertVal, updateNodeProperty, unsetNodeProperty,
+        updateNodesProperty, updateNodeProperties, updateLinkProperty, unsetLinkProperty, updateLinkProperties, delGraph,
+        addGraphDirect, mergeNodes, getNodeProperties, getLinkProperties, listAllNodeIds, nodesByClass, nodesByClassAndType,
+        nodeExists, graphExists, checkNodeUnique, findMatchingNodes, delAllGraphs, withNode, withLink, nidList] at h ⊢
+       (repeat' split) <;> simp_all; done)
+    | (exfalso; simp [Store.step, graphExists, checkNodeUnique] at h; done)
+    | skip
+  case addGraph g ig =>
+    right
+    refine ⟨Or.inl ⟨g, ig, rfl⟩, ?_⟩
+    simp only [Store.step, addGraph, Op.target] at h ⊢
+    split at h <;> simp_all
+  case clone g g2 =>
+    simp only [Store.step, cloneGraph, Op.target] at h ⊢
+    split
+    · left; rfl
+    · right
+      refine ⟨Or.inr ⟨g, g2, rfl⟩, ?_⟩
+      rename_i ig hig
+      rw [hig] at h
+      simp only [addGraph] at h ⊢
+      split at h <;> simp_all
+
+/-- **refused calls are invisible to the rest of the history**: striking a refused call (other than a refused import) out of a
+    history changes neither the final store nor - `Store.step` being a function of the operation and the store - any later
+    reply.  In particular a refused `merge_nodes` between a graph and its clone cannot send later updates of either to the
+    other. -/
+theorem refused_calls_are_invisible (op : Op) (rest : List Op) (s : Store) (e : Err)
+    (h : (Store.step op s).1 = .error e) (h1 : ∀ g ig, op ≠ .addGraph g ig) (h2 : ∀ g g2, op ≠ .clone g g2) :
+    Store.run (op :: rest) s = Store.run rest s := by
+  have := failed_call_changes_nothing op s e h
+  rcases this with h0 | ⟨⟨g, ig, hop⟩ | ⟨g, g2, hop⟩, _⟩
+  · simp only [Store.run, List.foldl_cons, h0]
+  · exact absurd hop (h1 g ig)
+  · exact absurd hop (h2 g g2)
+
+/-- non-vacuity: a graph and a twin that lacks the property the policy names - the merge is refused with `KeyError` after both
+    lookups (the history of seeded C04-r4-2), and it is neither an import nor a clone -/
+example :
+    (Store.step (.mergeNodes "g1" "n1" "g2" (some [("p", .overwrite)]))
+      (Store.run [.addNode "g1" "n1" "Link" (some [("p", .str "x")]), .addNode "g2" "n1" "Link" none] Store.init)).1
+      = .error .key := by rfl
 
 /-! ## one graph per id: the same statements -/
 
